@@ -34,7 +34,8 @@ type Meta struct {
 	QuickTimeoutS    int `json:"quick_timeout_s"`
 	ThoroughTimeoutS int `json:"thorough_timeout_s"`
 	CHelper     bool     `json:"c_helper"`
-	MemLimitMB  int      `json:"mem_limit_mb"` // address-space limit of each worker: exhaustion is then a Go fatal error, reported with the persisted case
+	MemLimitMB  int      `json:"mem_limit_mb"` // address-space limit of each worker (default 12000, 0 with -race): exhaustion is a Go fatal error instead of a machine-wide OOM kill
+	OOMIsCrash  bool     `json:"oom_is_crash"` // memory exhaustion of a worker counts as a crash of the code under test (C02); otherwise the run is inconclusive
 }
 
 type KnownFinding struct {
@@ -250,6 +251,9 @@ func main() {
 	if scale != "" {
 		commonEnv = append(commonEnv, "VERIF_SCALE="+scale)
 	}
+	if meta.MemLimitMB == 0 && !meta.Race {
+		meta.MemLimitMB = 12000
+	}
 	if meta.MemLimitMB > 0 {
 		commonEnv = append(commonEnv, "VERIF_MEMLIMIT_MB="+strconv.Itoa(meta.MemLimitMB))
 	}
@@ -353,6 +357,10 @@ func main() {
 				continue
 			}
 			lg := r.log
+			if !meta.OOMIsCrash && (strings.Contains(lg, "out of memory") || strings.Contains(lg, "cannot allocate memory")) {
+				inconclusive = append(inconclusive, fmt.Sprintf("shard %d ran out of memory (worker limit %d MB): the harness, not goawk, is the likely cause\n%s", i, meta.MemLimitMB, tail(lg, 1500)))
+				continue
+			}
 			if strings.Contains(lg, "panic:") || strings.Contains(lg, "fatal error:") || strings.Contains(lg, "DATA RACE") {
 				// the worker died from a Go runtime failure: that is a crash of the code under test
 				path := filepath.Join(replayDir, fmt.Sprintf("crash-shard%d.json", i))
